@@ -202,7 +202,9 @@ static void run_case(Ctx& c, uint64_t idx) {
         if (p.flag & 2) { o.scheme = 1; p.a = valid_uri(r, o); p.b = r.coin() ? gen_abs_base(r) : mutate(r, p.a, 1); } else { p.a = valid_uri(r, o); p.b = gen_abs_base(r); }
         size_t e; if (!dfa_uriref(p.b, &e)) p.b = "s://h/a/b/c"; } break;
     case C_DISSECT: { int n = r.range(0, 6); for (int i = 0; i < n; i++) { if (i) p.a += '&'; p.a += gen_string(r, 6); if (r.coin()) { p.a += '='; p.a += gen_string(r, 6); } } for (auto& ch : p.a) if (ch == 0) ch = 'x'; p.flag = (int)r.below(4); p.mask = r.below(4); } break;
-    default: { int n = r.range(1, 5); for (int i = 0; i < n; i++) { QItem it; it.key = gen_string(r, 6); it.hasValue = r.coin(); it.value = gen_string(r, 6); p.items.push_back(it); p.a += it.key + "=" + it.value + "&"; } p.flag = (int)r.below(4); } break;
+    default: { int n = r.range(1, 5); for (int i = 0; i < n; i++) { QItem it; it.key = gen_string(r, 6); it.hasValue = r.coin(); it.value = gen_string(r, 6);
+                   if (r.chance(1, 12)) { Str t((size_t)special_length(r) % 1100, 'a'); for (auto& ch : t) ch = "0123456789abcdef-._~ &=%\n"[r.below(r.coin() ? 16 : 25)]; it.hasValue = true; it.value = t; }     // a long token or text: worst-case and actual size far apart
+                   p.items.push_back(it); p.a += it.key + "=" + it.value + "&"; } p.flag = (int)r.below(4); } break;
     }
     // now and then one component made of 16 .. 100 decodable triplets (a copy that shrinks a lot when repaired)
     if ((p.call == C_NORMALIZE || p.call == C_MAKEOWNER) && r.chance(1, 40)) { Str t; int n = r.range(16, 100); for (int i = 0; i < n; i++) t += r.chance(1, 8) ? "%2F" : (r.coin() ? "%41" : "%7e"); static const char* const W[] = {"s://h/p?", "s://h/", "s://u", "s://", "s://h/p#"}; int w = (int)r.below(5); p.a = Str(W[w]) + t + (w == 2 ? "@h/p" : w == 3 ? "/p" : ""); if (p.call == C_NORMALIZE) p.mask = 63u; }
